@@ -492,6 +492,74 @@ def gen_ops(tier, rng):
         inputs = inputs + inputs[:1]
         add(evv_line(fixed, st, expr, inputs), 'wt')
 
+    # ---- lane 8: ONE expression object shared between positions / clauses / Ins: scripts of interleaved Resolve and Eval calls
+    # (Resolve ; Eval ; Resolve of the same object at another type, directly or through an In that holds it ; Eval of the first use again)
+    n8 = 80 * scale
+    sh_types = [T_int('int'), T_STR, T_ANY, T_ptr(T_S1), T_sl(T_int('int')), T_flt('float64'), T_int('Level'), T_BOOL, T_F0, T_sl(T_STR)]
+
+    def sh_line(objs, steps):
+        toks = ['c18.sh', str(len(objs))]
+        for o in objs:
+            toks += o
+        toks.append(str(len(steps)))
+        for st in steps:
+            toks += st
+        return ' '.join(toks)
+
+    def sh_input(t):
+        if t[0] in NILABLE and rng.chance(1, 8):
+            return ['nil']
+        return rand_of(t)
+
+    def R(i, types):
+        return ['R', str(i), str(len(types))] + [ty_tok(t) for t in types]
+
+    def E(i, types):
+        out = ['E', str(i), str(len(types))] + [ty_tok(t) for t in types]
+        for t in types:
+            out += sh_input(t)
+        return out
+
+    for anyk in ('any', 'anyvalues'):               # the shapes of real use, systematically over type pairs
+        for t1 in sh_types:
+            for t2 in sh_types[::1 if tier == 'thorough' else 3]:
+                add(sh_line([[anyk]], [R(0, [t1]), E(0, [t1]), R(0, [t2]), E(0, [t1]), E(0, [t2])]), 'x')
+                add(sh_line([[anyk], ['in', '1', 'c', 'r', '0']], [R(0, [t1]), E(0, [t1]), R(1, [t2]), E(1, [t2]), E(0, [t1])]), 'x')
+                add(sh_line([[anyk], ['in', '1', 't', '2', 'r', '0', 'r', '0']], [R(1, [t1, t2]), E(1, [t1, t2]), E(0, [t1]), E(0, [t2])]), 'x')
+                add(sh_line([[anyk], ['in', '1', 't', '2', 'r', '0', 'v'] + arg_tokens(rand_of(t2)), ['in', '1', 't', '2', 'v'] + arg_tokens(rand_of(t2)) + ['r', '0']],
+                            [R(1, [t1, t2]), E(1, [t1, t2]), R(2, [t2, t1]), E(1, [t1, t2]), E(2, [t2, t1])]), 'x')
+    for _ in range(n8):
+        pool = [rng.choice(sh_types) for _ in range(2 + rng.below(2))]
+        objs, arity = [], []
+        for i in range(1 + rng.below(4)):
+            m = rng.below(10)
+            if m < 3 or i == 0 and m < 6:
+                objs.append([rng.choice(['any', 'anyvalues'])])
+                arity.append(1)
+            elif m < 6 or i == 0:
+                t = rng.choice(pool)
+                objs.append(['eq'] + (['nil'] if t[0] in NILABLE and rng.chance(1, 6) else arg_tokens(rand_of(t))))
+                arity.append(1)
+            else:
+                ar = rng.choice([1, 1, 2])
+                k = 1 + rng.below(3)
+                o = ['in', str(k)]
+                for _ in range(k):
+                    o += ['c'] if ar == 1 else ['t', str(ar)]
+                    for _ in range(ar):
+                        if rng.chance(1, 2):
+                            o += ['r', str(rng.below(i))]
+                        else:
+                            o += ['v'] + arg_tokens(rand_of(rng.choice(pool)))
+                objs.append(o)
+                arity.append(ar)
+        steps = []
+        for _ in range(4 + rng.below(7)):
+            i = rng.below(len(objs))
+            types = [rng.choice(pool) for _ in range(arity[i])]
+            steps.append(R(i, types) if rng.chance(2, 5) else E(i, types))
+        add(sh_line(objs, steps), 'x')
+
     # ---- lane 5: cross-typed and malformed (agreement with the model only; panics/errors are observations)
     n5 = 120 * scale
     same_size = [T_int('int'), T_int('int64'), T_int('uint64'), T_int('uint'), T_int('uintptr'), T_flt('float64'), T_int('NInt'), T_flt('NF64'), T_int('Level'), T_flt('Temp')]
@@ -558,7 +626,7 @@ def annotate(lines, tag):
     if rc != 0:
         raise C.Infra(f'annotate pass failed rc={rc}:\n{log[-2000:]}')
     res = C.read_indexed(outp, len(lines))
-    bad = [(lines[i], r) for i, r in enumerate(res) if r is None or not r.startswith(('c18.ev ', 'c18.evv '))]
+    bad = [(lines[i], r) for i, r in enumerate(res) if r is None or not r.startswith(('c18.ev ', 'c18.evv ', 'c18.sh '))]
     if bad:
         raise C.Infra(f'generator produced {len(bad)} lines the probe cannot build, e.g. {bad[0]}')
     return res
@@ -593,11 +661,13 @@ def core(o):
     """The part of the implementation's observation the model also produces."""
     if o is None:
         return None
-    return ' '.join(p for p in o.split(' ') if p[:2] in ('R=', 'E='))
+    return ' '.join(p for p in o.split(' ') if p[:2] in ('R=', 'E=', 'S='))
 
 
 def expr_kind(line):
     toks = line.split(' ')
+    if toks[0] == 'c18.sh':
+        return 'shared-objects'
     return toks[2 + int(toks[1]) + (1 if toks[0] == 'c18.evv' else 0)]
 
 
@@ -610,6 +680,11 @@ def oracle(line, lane, obs):
         raise C.Infra(f'probe rejected the line: {obs[:200]} :: {line[:200]}')
     d = split_obs(obs)
     kind = expr_kind(line)
+    if kind == 'shared-objects':
+        for k, (a, mark) in enumerate(zip(d.get('S', '').split(','), d.get('A', '').split(','))):
+            if mark == 'a' and a != 't':
+                bad.append((f'Any rejected an argument: step {k} of a script on shared expression objects answered {a} (an earlier Resolve/Eval changed a later answer)', None))
+        return bad
     answers = d.get('E', '').split(',') if d.get('E') else []
     if lane == 'wt':
         if d.get('R') != 'ok':
@@ -673,7 +748,7 @@ def load_corpus():
     p = os.path.join(C.HARNESS, 'c18', 'corpus.ops')
     if not os.path.exists(p):
         return []
-    return [(l.rstrip('\n'), 'wt') for l in open(p) if l.startswith(('c18.ev ', 'c18.evv '))]
+    return [(l.rstrip('\n'), 'wt') for l in open(p) if l.startswith(('c18.ev ', 'c18.evv ', 'c18.sh '))]
 
 
 def run(tier):
@@ -735,17 +810,18 @@ def run(tier):
         d = split_obs(impl[i])
         k = 'expr ' + expr_kind(op) + (' (variadic)' if op.startswith('c18.evv') else '')
         dist[k] = dist.get(k, 0) + 1
-        pk = 'param ' + op.split(' ')[2].split(':')[1]
-        dist[pk] = dist.get(pk, 0) + 1
-        r = d.get('R', '?')
+        if not op.startswith('c18.sh'):
+            pk = 'param ' + op.split(' ')[2].split(':')[1]
+            dist[pk] = dist.get(pk, 0) + 1
+        r = d.get('R', 'script' if 'S' in d else '?')
         outcome['resolve ' + r] = outcome.get('resolve ' + r, 0) + 1
-        for a in (d.get('E', '').split(',') if d.get('E') else []):
+        for a in (d.get('E', '').split(',') if d.get('E') else []) + (['step ' + x for x in d['S'].split(',')] if d.get('S') else []):
             evals += 1
             outcome['eval ' + a] = outcome.get('eval ' + a, 0) + 1
         for o in (d.get('O', '').split(',') if d.get('O') else []):
             fl = o.split('/')[0][1:] or 'in-domain'
             flagc[fl] = flagc.get(fl, 0) + 1
-    nontrivial = len({op for i, op in enumerate(ops) if impl[i] and impl[i].startswith('R=ok E=')})
+    nontrivial = len({op for i, op in enumerate(ops) if impl[i] and impl[i].startswith(('R=ok E=', 'S='))})
     out.coverage = {
         'obligations': proof['obligations'], 'discharged': proof['discharged'], 'checker_cmd': ' ; '.join(proof['cmds']),
         'trusted_base': ['Lean 4.33 kernel', 'axioms: ' + ', '.join(sorted({a for v in proof['axioms'].values() for a in v}) or ['none']),
